@@ -331,6 +331,9 @@ func c04(c *Ctx) {
 	c04PendingInput(c)
 	c04ReporterQueues(c)
 	c04BodyConsumed(c)
+	// a transfer that spans several datagrams is collected per peer (shared with C03): keyed by less than the peer's address,
+	// two clients' datagrams are decoded and reported as one transfer
+	c03PeerKeys(c)
 	// a datagram (and the peeked bytes) is served to the end: what did not fit one Read is kept for the next (shared with C08)
 	c08ReadKeepsRemainder(c)
 	// the dispatcher's peek connection sits between the listener and every service of a shared port: what it peeked it replays in full (shared with C08)
